@@ -112,8 +112,15 @@ def reqLine (toks : List String) : String :=
           | .receive =>
             if fs.canCreate w.path then
               let rc : RCfg := { b := w.opts.blockSize, w := w.opts.windowSize, rep := w.rep, cleanOnError := cfg.cleanOnError }
-              let st := rStep rc (rInit rc) (.data 1 abc)
-              let acks := " ".intercalate (st.2.map fun a => s!"A{a.n}")
+              -- the scripted upload: `nfull` full blocks, then the short block "abc"
+              let b := w.opts.blockSize
+              let byBytes := max 1 (49152 / (max b 1))
+              let nfull := min (min w.opts.windowSize 300) byBytes
+              let evs : List REv := (List.range nfull).map (fun i => REv.data ((i + 1) % 65536) (genBytes b (i + 1))) ++
+                [REv.data ((nfull + 1) % 65536) abc]
+              let run := rRunFrom rc (rInit rc) evs
+              let acks := " ".intercalate (run.1.flatten.map fun a => s!"A{a.n}")
+              let st := (run.2, ())
               -- still running (block was not final): the client's ERROR ends it
               let final : Option Bytes := match st.1.status with
                 | .ok => some st.1.win.file.content
